@@ -41,6 +41,8 @@ fn app_spec(parallelism: usize, balancer: &str) -> AppSpec {
         _ => {}
     }
     s.input_plugins = plugins;
+    // the configured persistence policy alternates between the configurations; every run also states its own policy (or none)
+    s.persistence = if (parallelism + balancer.len()) % 2 == 0 { "discard_response_from_memory".into() } else { "persist_response_in_memory".into() };
     s
 }
 
@@ -97,9 +99,24 @@ fn batch_histories(tier: Tier, st: &mut Stats, only: Option<&Value>) -> bool {
             }
         }
     }
-    for (ai, (par, bal, app)) in apps.iter().enumerate() {
+    for (par, bal, app) in apps.iter() {
+        // index of the configuration in the full list (it rotates the quick-tier subsets)
+        let ai = (*par - 1) * 3 + ["none", "haversine", "custom"].iter().position(|b| b == bal).unwrap_or(0);
+        // what each alphabet query returns alone under this configuration: asked of a twin application whose configured policy keeps
+        // responses in memory, so that the reference does not depend on how a per-run policy is honoured
+        let ref_app = {
+            let mut spec = app_spec(*par, bal);
+            spec.persistence = "persist_response_in_memory".into();
+            match spec.build(&scratch.path.join(format!("ref_app_{}_{}", par, bal))) {
+                Ok(a) => a,
+                Err(e) => {
+                    st.violation("harness", "app_build", 0, || e.clone(), || json!({"parallelism": par, "balancer": bal}));
+                    return true;
+                }
+            }
+        };
         // what each alphabet query returns alone under this configuration
-        let alone: Vec<Vec<Value>> = alpha.iter().map(|(_, q, _)| guarded(|| app.run(vec![tagq(q, "x")], None)).ok().and_then(|r| r.ok()).unwrap_or_default().iter().map(proj).collect()).collect();
+        let alone: Vec<Vec<Value>> = alpha.iter().map(|(_, q, _)| guarded(|| ref_app.run(vec![tagq(q, "x")], None)).ok().and_then(|r| r.ok()).unwrap_or_default().iter().map(proj).collect()).collect();
         // sanity of the alphabet itself
         for (i, (name, _, n)) in alpha.iter().enumerate() {
             let ok = alone[i].len() == *n
@@ -117,7 +134,7 @@ fn batch_histories(tier: Tier, st: &mut Stats, only: Option<&Value>) -> bool {
             // quick: batches of length 3 are spread over the 12 configurations (each batch still runs under three of them)
             if let Some(o) = only {
                 let names: Vec<Value> = b.iter().map(|qi| json!(alpha[*qi].0)).collect();
-                if o["batch"] != Value::Array(names) {
+                if o.get("batch").is_some() && o["batch"] != Value::Array(names) {
                     continue;
                 }
             }
@@ -125,10 +142,13 @@ fn batch_histories(tier: Tier, st: &mut Stats, only: Option<&Value>) -> bool {
                 continue;
             }
             for override_par in [None, Some(1usize), Some(3usize)] {
-                if only.is_none() && override_par.is_some() && (bi + ai) % 3 != 0 {
+                if only.map_or(true, |o| o.get("batch").is_none()) && override_par.is_some() && (bi + ai) % 3 != 0 {
                     continue;
                 }
-                for persist in ["persist_response_in_memory", "discard_response_from_memory"] {
+                let configured_persist: &str = if (par + bal.len()) % 2 == 0 { "discard_response_from_memory" } else { "persist_response_in_memory" };
+                for persist_opt in [Some("persist_response_in_memory"), Some("discard_response_from_memory"), None] {
+                    // no policy in the run configuration: the configured one applies
+                    let persist: &str = persist_opt.unwrap_or(configured_persist);
                     st.states += 1;
                     st.evaluations += 1;
                     st.transitions += 1;
@@ -139,13 +159,16 @@ fn batch_histories(tier: Tier, st: &mut Stats, only: Option<&Value>) -> bool {
                     let queries: Vec<Value> = b.iter().enumerate().map(|(k, qi)| tagq(&alpha[*qi].1, &format!("q{}", k))).collect();
                     let path = scratch.path.join(format!("out_{}_{}.jsonl", ai, bi));
                     let _ = std::fs::remove_file(&path);
-                    let mut cfg = json!({"response_persistence_policy": persist, "response_output_policy": {"type": "file", "filename": path.to_str().unwrap(), "format": {"type": "json", "newline_delimited": true}}});
+                    let mut cfg = json!({"response_output_policy": {"type": "file", "filename": path.to_str().unwrap(), "format": {"type": "json", "newline_delimited": true}}});
+                    if let Some(p) = persist_opt {
+                        cfg["response_persistence_policy"] = json!(p);
+                    }
                     if let Some(p) = override_par {
                         cfg["parallelism"] = json!(p);
                     }
                     let comp = format!("batch_histories.{}.{}", bal, if persist.starts_with("persist") { "keep" } else { "discard" });
                     let names: Vec<&str> = b.iter().map(|qi| alpha[*qi].0).collect();
-                    let case = || json!({"batch": names, "configured_parallelism": par, "run_parallelism": override_par, "balancer": bal, "persistence": persist});
+                    let case = || json!({"batch": names, "configured_parallelism": par, "run_parallelism": override_par, "balancer": bal, "persistence": persist, "persistence_from": if persist_opt.is_some() { "run configuration" } else { "application configuration" }, "configured_persistence": configured_persist});
                     let size = b.len() as u64 * 100 + b.iter().sum::<usize>() as u64;
                     let (a2, q2, c2) = (app.clone(), queries.clone(), cfg.clone());
                     let r = match crate::engine::with_deadline(60, move || guarded(|| a2.run(q2, Some(&c2)).map_err(|e| e.to_string()))) {
@@ -194,6 +217,15 @@ fn batch_histories(tier: Tier, st: &mut Stats, only: Option<&Value>) -> bool {
                         let missing: Vec<&String> = w.iter().filter(|x| !g.contains(x)).take(2).collect();
                         let extra: Vec<&String> = g.iter().filter(|x| !w.contains(x)).take(2).collect();
                         st.violation(&comp, "responses_equal_alone_responses", size, || format!("missing {:?} ; unexpected {:?}", missing, extra), case);
+                    }
+                    // a discarding run hands back only what never reached the search (responses of input-plugin failures)
+                    if !persist.starts_with("persist") {
+                        let allowed = b.iter().filter(|qi| alpha[**qi].0 == "plugin_failure").count();
+                        if returned.len() <= allowed {
+                            st.pass("discarding_run_returns_no_search_responses");
+                        } else {
+                            st.violation(&comp, "discarding_run_returns_no_search_responses", size, || format!("{} responses returned, at most {} expected", returned.len(), allowed), case);
+                        }
                     }
                     if persist.starts_with("persist") && canon_multiset(&filed.iter().map(proj).collect::<Vec<_>>()) != canon_multiset(&got) {
                         st.violation(&comp, "file_and_returned_responses_agree", size, || format!("file has {} records, {} returned", filed.len(), returned.len()), case);
@@ -293,6 +325,8 @@ fn schedule_scenarios(tier: Tier) -> Vec<(bool, Scenario, Option<usize>)> {
     let q = |i: usize, id: &str| tagq(&qa[i], id);
     let e = |o: usize, d: usize, id: &str| tagq(&json!({"origin_vertex": o, "destination_vertex": d, "model_name": "bolt", "starting_soc_percent": 70}), id);
     let cb = Some(tier.pick(3, 4));
+    // (a fresh application per schedule costs ~10 ms: the cold scenarios keep bound 2 in the quick tier)
+    let cold = Some(tier.pick(2, 4));
     vec![
         (false, Scenario { name: "c06_2x2_jsonl".into(), batches: vec![vec![q(0, "a0"), q(2, "a1")], vec![q(1, "b0"), q(4, "b1")]], csv: false, flush_rate: 1, keep_responses: true, fresh_app: false, combined: false }, None),
         (false, Scenario { name: "c06_3x1_csv".into(), batches: vec![vec![q(0, "a0")], vec![q(2, "b0")], vec![q(3, "c0")]], csv: true, flush_rate: 1, keep_responses: true, fresh_app: false, combined: false }, Some(tier.pick(3, 5))),
@@ -300,8 +334,8 @@ fn schedule_scenarios(tier: Tier) -> Vec<(bool, Scenario, Option<usize>)> {
         // warm: every lookup is a hit (the cache was filled by the alone runs); cold: a fresh application per execution, so that
         // misses, the model call and the update of two workers interleave; distinct: the two workers meet the keys in different orders
         (true, Scenario { name: "c06_2x1_shared_prediction_cache".into(), batches: vec![vec![e(0, 4, "a0")], vec![e(0, 4, "b0")]], csv: false, flush_rate: 1, keep_responses: true, fresh_app: false, combined: false }, cb),
-        (true, Scenario { name: "c06_2x1_shared_prediction_cache_cold".into(), batches: vec![vec![e(0, 4, "a0")], vec![e(0, 4, "b0")]], csv: false, flush_rate: 1, keep_responses: true, fresh_app: true, combined: false }, cb),
-        (true, Scenario { name: "c06_2x1_shared_prediction_cache_cold_distinct".into(), batches: vec![vec![e(0, 4, "a0")], vec![e(3, 1, "b0")]], csv: false, flush_rate: 1, keep_responses: true, fresh_app: true, combined: false }, cb),
+        (true, Scenario { name: "c06_2x1_shared_prediction_cache_cold".into(), batches: vec![vec![e(0, 4, "a0")], vec![e(0, 4, "b0")]], csv: false, flush_rate: 1, keep_responses: true, fresh_app: true, combined: false }, cold),
+        (true, Scenario { name: "c06_2x1_shared_prediction_cache_cold_distinct".into(), batches: vec![vec![e(0, 4, "a0")], vec![e(3, 1, "b0")]], csv: false, flush_rate: 1, keep_responses: true, fresh_app: true, combined: false }, cold),
     ]
 }
 
@@ -314,6 +348,16 @@ fn schedules(tier: Tier, st: &mut Stats, bounds: &mut serde_json::Map<String, Va
 
 pub fn worker(args: &[String]) -> i32 {
     let tier = if args.first().map(|s| s.as_str()) == Some("thorough") { Tier::Thorough } else { Tier::Quick };
+    if args.get(1).map(|s| s.as_str()) == Some("batches") {
+        // one case = the batch histories of one of the twelve configurations
+        return crate::engine::sandbox::worker_loop(|i, st| {
+            let par = i as usize / 3 + 1;
+            let bal = ["none", "haversine", "custom"][i as usize % 3];
+            if !batch_histories(tier, st, Some(&json!({"configured_parallelism": par, "balancer": bal}))) {
+                st.notes.insert("STUCK".into());
+            }
+        });
+    }
     let scs = schedule_scenarios(tier);
     let mut fx_plain: Option<crate::props::c19::Fixture> = None;
     let mut fx_cache: Option<crate::props::c19::Fixture> = None;
@@ -337,7 +381,33 @@ pub fn run(tier: Tier) -> i32 {
     let info = RunInfo::new("C06", tier);
     let mut st = Stats::new();
     let mut bounds = serde_json::Map::new();
-    let alive = batch_histories(tier, &mut st, None);
+    // the twelve configurations run in parallel, one worker process each
+    let alive = {
+        use crate::engine::sandbox::{run_cases, SandboxCfg};
+        let cfg = SandboxCfg {
+            worker_args: vec!["--worker".into(), "C06".into(), tier.as_str().into(), "batches".into()],
+            n_workers: 12,
+            case_timeout: std::time::Duration::from_secs(tier.pick(1200, 6 * 3600)),
+            block: 1,
+            budget: std::time::Duration::from_secs(tier.pick(1800, 8 * 3600)),
+        };
+        match run_cases(&cfg, 12) {
+            Ok((s, fates)) => {
+                if !fates.is_empty() {
+                    println!("MACHINERY-ERROR batch history workers hung or died: {:?}", fates);
+                    return 2;
+                }
+                let stuck = s.notes.contains("STUCK");
+                st.merge(s);
+                st.notes.remove("STUCK");
+                !stuck
+            }
+            Err(e) => {
+                println!("MACHINERY-ERROR {}", e);
+                return 2;
+            }
+        }
+    };
     load_balancing(tier, &mut st);
     st.sample(3, || json!({"load_balancing": {"weights": [null, 5.0, 0.0, 2.0], "parallelism": 3}}));
     if alive {
@@ -354,7 +424,7 @@ pub fn run(tier: Tier) -> i32 {
     finish(
         &info,
         st,
-        "(a) state = one ordered batch (length 1-3/4 over 7 query kinds: two valid, unreachable, malformed, input-plugin failure, grid search expanding to 2, iteration-limit) x configured parallelism 1-4 x per-run override x balancer {none, haversine, custom} x persistence policy, run through the real CompassApp::run with free-running rayon; oracle = multiset of projected responses equals the union of what each query returns alone; (b) state = one weight vector over {absent,0,1,2,5}^n x parallelism 1-4 through apply_load_balancing_policy; (c) state = one complete schedule of the worker pools (E3), each task's returned responses judged; non-trivial = batch of >= 2 queries / >= 2 queries and >= 2 bins / schedule with a preemption",
+        "(a) state = one ordered batch (length 1-3/4 over 7 query kinds: two valid, unreachable, malformed, input-plugin failure, grid search expanding to 2, iteration-limit) x configured parallelism 1-4 x per-run override x balancer {none, haversine, custom} x persistence policy {configured persist / discard} x {run states persist, run states discard, run states nothing}, run through the real CompassApp::run with free-running rayon; oracle = multiset of projected responses equals the union of what each query returns alone; (b) state = one weight vector over {absent,0,1,2,5}^n x parallelism 1-4 through apply_load_balancing_policy; (c) state = one complete schedule of the worker pools (E3), each task's returned responses judged; non-trivial = batch of >= 2 queries / >= 2 queries and >= 2 bins / schedule with a preemption",
         true,
         Value::Object(bounds),
         vec![
